@@ -1,6 +1,6 @@
 (** Properties/C02.v — Every mistake in the input is reported, exactly once, in a single pass.
     Statements only; one level of a derived parser, for every item list (see C01.v). *)
-From DarlingModel Require Import Run.Recv Run.RecvProofs Run.LoopProofs Run.LevelProofs Err.ErrTree Spec.C01 Run.SpecSound Run.SpecComplete Run.SpecCount Run.TotalProofs Err.ErrProofs.
+From DarlingModel Require Import Run.Recv Run.RecvProofs Run.LoopProofs Run.LevelProofs Err.ErrTree Spec.C01 Run.SpecSound Run.SpecComplete Run.SpecCount Run.TotalProofs Run.LeafTotal Run.LeafPos Exec.ErrObs Exec.ConvCase Exec.RecvCase Err.ErrProofs.
 Local Open Scope list_scope.
 
 (** Pushing an error never loses the ones recorded before it. *)
@@ -91,8 +91,9 @@ Theorem C02_every_mistake_reported_exactly_once :
   forall pf reparse reparse_arr reparse_preds sugg sim interp_with interp_fn,
     (forall w it e, interp_with w it = Err e -> (0 < len e)%N) ->
     (forall g v e, interp_fn g v = Err e -> (0 < len e)%N) ->
-    (forall tg m e, from_meta (leaf_fm pf reparse reparse_arr reparse_preds tg) m = Err e -> (0 < len e)%N) ->
-    forall t, kwf interp_fn t ->
+    forall ok_leaf : Targets.target -> Prop,
+    (forall tg, ok_leaf tg -> forall m e, from_meta (leaf_fm pf reparse reparse_arr reparse_preds tg) m = Err e -> (0 < len e)%N) ->
+    forall t, kwf interp_fn ok_leaf t ->
       forall m, is_meta m = true ->
         match from_meta (impl_of pf reparse reparse_arr reparse_preds sugg sim interp_with interp_fn t) m with
         | Err e => len e = mistakes pf reparse reparse_arr reparse_preds interp_with interp_fn t m /\ (0 < len e)%N
@@ -107,8 +108,24 @@ Theorem C02_len_counts_leaves : forall e pre inh, len e = N.of_nat (List.length 
 Proof. exact ErrProofs.len_leaves. Qed.
 
 Theorem C02_executable_hypotheses_are_sound :
-  forall interp_fn t, kwfb interp_fn t = true -> kwf interp_fn t.
+  forall interp_fn t, kwfb interp_fn t = true -> kwf interp_fn (fun tg => plain tg = true) t.
 Proof. exact kwfb_sound. Qed.
+
+(** The instance the correspondence check evaluates (the corpus's callables, any oracle tables, any
+    case): the plain library targets and those callables return proper errors (Run/LeafPos.v), so
+    nothing is assumed beyond [kwfb], which the check evaluates on every receiver it runs. *)
+Theorem C02_checked_instance :
+  forall c : caseRecv,
+    kwfb (interp_fn_lib (rc_consts c)) (rc_ty c) = true ->
+    forall m, is_meta m = true ->
+      match from_meta (recv_fm c) m with
+      | Err e => len e = mistakes (pf_of (rc_pf c)) (reparse_of (rc_or c)) (reparse_arr_of (rc_or c)) (reparse_preds_of (rc_or c))
+                                  interp_with_lib (interp_fn_lib (rc_consts c)) (rc_ty c) m /\ (0 < len e)%N
+      | Ok _ => mistakes (pf_of (rc_pf c)) (reparse_of (rc_or c)) (reparse_arr_of (rc_or c)) (reparse_preds_of (rc_or c))
+                         interp_with_lib (interp_fn_lib (rc_consts c)) (rc_ty c) m = 0%N
+      | Panic _ => True
+      end.
+Proof. exact checked_instance_count. Qed.
 
 Print Assumptions C02_push_keeps_earlier_errors.
 Print Assumptions C02_level_returns_all_errors.
@@ -119,3 +136,4 @@ Print Assumptions C02_loop_never_returns_early.
 Print Assumptions C02_fails_exactly_on_mistaken_inputs.
 Print Assumptions C02_every_mistake_reported_exactly_once.
 Print Assumptions C02_executable_hypotheses_are_sound.
+Print Assumptions C02_checked_instance.
